@@ -189,3 +189,71 @@ func VerifH_C20_DeferredPath() {
 	vCover("path-v2", !v1)
 	vCover("path-v1", v1)
 }
+
+// VerifH_C20_DeferredOptions: option handling of the two constructors against a direct writer.
+// Stream target: WriteAsCarV1(true) is a default placed BEFORE the caller's options, so a caller
+// passing WriteAsCarV1(false) together with a seekable stream gets the CARv2 a direct
+// NewWritable(stream, WriteAsCarV1(true), opts...) produces. Path target: with data padding and
+// either version the file equals the direct writer's output over an in-memory WriterAt, and in
+// CARv1 mode also the plain-stream payload.
+func VerifH_C20_DeferredOptions() {
+	roots := []cid.Cid{vCidID("root")}
+	ctx := context.Background()
+	b := vBlk{vCidT("blk"), vBytes("data", vChoose("len", 2))}
+	dp := uint64(4 * vChoose("dataPad", 2))
+	if vChoose("target", 2) == 0 {
+		// seekable stream target
+		userV1 := vChoose("userWriteAsCarV1", 3) // 0: not given, 1: false, 2: true
+		var opts []carv2.Option
+		switch userV1 {
+		case 1:
+			opts = append(opts, carv2.WriteAsCarV1(false))
+		case 2:
+			opts = append(opts, carv2.WriteAsCarV1(true))
+		}
+		if userV1 == 1 {
+			opts = append(opts, carv2.UseDataPadding(dp))
+		}
+		out := &vSink{}
+		dw := NewDeferredCarWriterForStream(out, roots, opts...)
+		vAssert("put", dw.Put(ctx, b.c.KeyString(), b.data) == nil)
+		vAssert("close", dw.Close() == nil)
+		ref := &vSink{}
+		d, err := carstorage.NewWritable(ref, roots, append([]carv2.Option{carv2.WriteAsCarV1(true)}, opts...)...)
+		vAssert("direct-open", err == nil)
+		vAssert("direct-put", d.Put(ctx, b.c.KeyString(), b.data) == nil)
+		vAssert("direct-finalize", d.Finalize() == nil)
+		vAssert("stream-identical-to-direct", vBytesEq(out.data, ref.data))
+		vCover("stream-user-v2", userV1 == 1)
+		return
+	}
+	v1 := vBool("writeAsCarV1")
+	opts := []carv2.Option{carv2.WriteAsCarV1(v1), carv2.UseDataPadding(dp)}
+	path := vFSPath("opt.car")
+	if vChoose("preexistingLongerFile", 2) == 1 {
+		// whatever was at the path before must not survive
+		vFSWriteFile(path, vBytes("old", 200))
+		vCover("path-overwrites-longer-file", true)
+	}
+	dw := NewDeferredCarWriterForPath(path, roots, opts...)
+	vAssert("put", dw.Put(ctx, b.c.KeyString(), b.data) == nil)
+	vAssert("close", dw.Close() == nil)
+	got, ok := vFSReadFile(path)
+	vAssert("file", ok)
+	ref := &vSink{}
+	d, err := carstorage.NewWritable(ref, roots, opts...)
+	vAssert("direct-open", err == nil)
+	vAssert("direct-put", d.Put(ctx, b.c.KeyString(), b.data) == nil)
+	vAssert("direct-finalize", d.Finalize() == nil)
+	vAssert("path-identical-to-direct", vBytesEq(got, ref.data))
+	if v1 {
+		// in CARv1 mode the file is the payload, exactly what a plain stream receives
+		ps := &vStreamSink{}
+		p, err := carstorage.NewWritable(ps, roots, opts...)
+		vAssert("stream-open", err == nil)
+		vAssert("stream-put", p.Put(ctx, b.c.KeyString(), b.data) == nil)
+		vAssert("stream-finalize", p.Finalize() == nil)
+		vAssert("v1-file-is-the-stream-payload", vBytesEq(got, ps.data))
+		vCover("path-v1-padded", dp > 0)
+	}
+}
